@@ -286,7 +286,23 @@ def gen_inputs(rng, g, types, n_random, max_enum=130):
     return uniq
 
 
+CHUNK = int(__import__('os').environ.get('VERIF_CHUNK', '250'))     # grammars per compiled driver: keeps one `go build` and one driver process small
+
+
 def run_family(ck, n_grammars, n_random, p_err=0.3, want_hist=True, conflict_bias=0.0, zip_frac=0.25):
+    """runs the family in chunks of CHUNK grammars (one scratch module and one compiled driver per chunk)"""
+    out, done = [], 0
+    while done < n_grammars:
+        n = min(CHUNK, n_grammars - done)
+        part = _run_family(ck, n, n_random, p_err, want_hist, conflict_bias, zip_frac)
+        for r in part:
+            r["gi"] += done
+        out += part
+        done += n
+    return out
+
+
+def _run_family(ck, n_grammars, n_random, p_err=0.3, want_hist=True, conflict_bias=0.0, zip_frac=0.25):
     rng = ck.rng
     gs = make_grammars(rng, n_grammars, p_err, conflict_bias)
     b = batch.Batch("parse")
